@@ -155,6 +155,21 @@ fn case(rec: &mut Rec, ctx: &Ctx, idx: u64, rng: &mut ChaCha20Rng, servers: &[(S
           unblindeds.push(unblinded);
           // blinding scalar freshness
           let rs: Scalar = r.into();
+          // a client may park its blind as a scalar / bytes while the request is in
+          // flight: the re-imported blind must unblind to the same result
+          {
+            use ppoprf::ppoprf::CurveScalar;
+            let again = Client::unblind(&ev.output, &CurveScalar::from(rs));
+            let again2 = Client::unblind(&ev.output, &CurveScalar::from(rs.to_bytes()));
+            rec.ev("reimported_blind_unblinds");
+            if again != unblindeds[unblindeds.len() - 1] || again2 != again {
+              rec.violation(
+                "reimported-blind-differs",
+                "unblinding with the blinding scalar exported and re-imported (as a scalar or as bytes) gives another result than unblinding with the original object".into(),
+                k3(&key),
+              );
+            }
+          }
           let rb = rs.to_bytes();
           if rs == Scalar::ZERO || rs == Scalar::ONE {
             rec.violation("degenerate-blinding", "blinding scalar is 0 or 1".into(), json!({}));
